@@ -86,8 +86,18 @@ func mutations(x *runner, t *target, b base, others []base) []mut {
 	n := len(b.ct)
 	// ---- single-bit flips
 	bits := map[int]bool{}
-	if b.allBits {
+	if b.allBits && (x.full || n <= 64) {
 		for i := 0; i < 8*n; i++ {
+			bits[i] = true
+		}
+	} else if b.allBits { // quick tier, longer ciphertext: one bit of every byte, every bit of the first 8 and last 16 bytes
+		for i := 0; i < n; i++ {
+			bits[8*i+(i+int(vt.Seed()))%8] = true
+		}
+		for i := 0; i < 64; i++ {
+			bits[i] = true
+		}
+		for i := 8 * (n - 16); i < 8*n; i++ {
 			bits[i] = true
 		}
 	} else {
